@@ -766,3 +766,44 @@ pub fn scope_event_programs(len: usize, f: &mut dyn FnMut(Vec<Stmt>)) {
         }
     }
 }
+
+/// Integer literals that coincide with the machine's own numbers for a function: a function value packs its
+/// entry offset and its number of local slots into one word, so the integers `offset * 65536 + slots` (and the
+/// bare offsets and their neighbours) are the ones an implementation could confuse with a function — in the
+/// constant pool, in a cache, in a comparison. EVERY such integer for offsets 0..=max_ip and 0..=6 slots, in 11
+/// small programs that use it as an argument, an operand, an array element, before and after the definition
+/// of functions with 0..3 slots, at top level, in a loop and inside a function.
+pub fn descriptor_literal_programs(max_ip: usize, f: &mut dyn FnMut(Vec<Stmt>)) {
+    let mut values: Vec<i64> = Vec::new();
+    for ip in 0..=max_ip as i64 {
+        for slots in 0..=6i64 {
+            values.push(ip * 65536 + slots);
+        }
+        values.push(ip * 65536 - 1);
+    }
+    for v in values {
+        let lit = || int_lit(v);
+        let progs: Vec<Vec<Stmt>> = vec![
+            vec![es(func("f", &["a"], vec![es(id("a"))])), es(calln("f", vec![lit()]))],
+            vec![let_("k", lit()), es(func("f", &["a"], vec![es(infix(id("a"), Operator::Add, int(1)))])), es(calln("f", vec![id("k")]))],
+            vec![es(func("nul", &[], vec![es(int(0))])), es(infix(calln("nul", vec![]), Operator::Add, lit()))],
+            vec![es(func("f", &["a", "b"], vec![es(infix(id("a"), Operator::Subtract, id("b")))])), es(calln("f", vec![lit(), int(10)]))],
+            vec![let_("g", func("", &["x"], vec![es(id("x"))])), es(array(vec![lit(), calln("g", vec![lit()])]))],
+            vec![es(func("buiten", &[], vec![es(func("binnen", &["p"], vec![let_("q", id("p")), es(id("q"))])), es(calln("binnen", vec![lit()]))])), es(calln("buiten", vec![]))],
+            vec![es(func("f", &[], vec![es(int(1))])), es(lit())],
+            vec![es(func("f", &["a"], vec![let_("b", id("a")), let_("c", id("b")), es(id("c"))])), print1(lit()), es(infix(calln("f", vec![lit()]), Operator::Add, lit()))],
+            vec![es(lit()), es(func("f", &["a"], vec![es(id("a"))])), es(calln("f", vec![int(1)]))],
+            vec![let_("t", calln("type", vec![lit()])), es(func("f", &[], vec![es(int(2))])), es(array(vec![id("t"), calln("type", vec![id("f")]), calln("type", vec![lit()]), calln("f", vec![])]))],
+            vec![
+                es(func("f", &["a"], vec![es(infix(id("a"), Operator::Multiply, int(2)))])),
+                let_("r", int(0)),
+                let_("i", int(0)),
+                es(whil(infix(id("i"), Operator::Lt, int(2)), vec![es(assign(id("r"), infix(id("r"), Operator::Add, calln("f", vec![lit()])))), es(op_assign("i", Operator::Add, int(1)))])),
+                es(id("r")),
+            ],
+        ];
+        for p in progs {
+            f(p);
+        }
+    }
+}
